@@ -459,7 +459,8 @@ fn proc_cases(thorough: bool) -> Vec<ProcCase> {
                     lang,
                     multi,
                     offending: Some("ws/edge-crate/src/lib.rs".into()),
-                    extra_args: vec![],
+                    // the symbols about members compiled out for the target need a target list
+                    extra_args: if name.contains("cfg-out") { vec!["--target-os".to_string(), "ios".to_string()] } else { vec![] },
                     input: "ws".into(),
                     cwd: String::new(),
                     raw_inputs: vec![],
